@@ -192,8 +192,8 @@ def cnvByConst (n resSize resCols resCol aSize aCols aCol bSize cnvOffset : Nat)
     i64save (n * resCols) (n * resCol) minSize blk (0, 0) (3, 0)) ++
   (List.range' minSize (resSize - minSize)).map (fun j => wt 0 (n * (j * resCols + resCol)) n)
 
-/-! ### the same two operations with the column checks of the proposed repair (docs/fixes): `assert!(res_col < res.cols())`,
-`assert!(a_col < a.cols())`, `assert!(b_col < b.cols())` at entry -/
+/-! ### the entry points as shipped (repair docs/fixes/24): `assert!(res_col < res.cols())`, `assert!(a_col < a.cols())`,
+`assert!(b_col < b.cols())` first, then the bodies `cnvApply` / `cnvByConst` above -/
 
 def cnvApplyChecked (m resSize resCols resCol aSize aCols aCol bSize bCols bCol cnvOffset : Nat) : Outcome (List Acc) :=
   if ¬ (resCol < resCols ∧ aCol < aCols ∧ bCol < bCols) then .panic "assert"
